@@ -21,6 +21,7 @@ void emit(const std::string& id, const std::string& what, const std::string& val
 }
 
 RXV_SUBCOMMAND(c17) {
+	runWatchdogKey() = "C17:watchdog:program-execution-did-not-return";
 	Rng rng(args.seed, 0xc17, args.shard);
 	const bool thorough = args.thorough();
 	const uint64_t nProgs = args.cases ? args.cases : 60;
